@@ -160,16 +160,8 @@ def r11_2(q, R, spec):
                 env = envs[form["name"]]
                 R.inst(rid, "contract:value", rr == U.parse(form["value"], env), sp=a["sp"], expect=U.show(U.parse(form["value"], env)), got=U.show(rr),
                        detail="the innermost simple name of the name in the same namespace; names without `$` stay")
-                why = ("writing slot 0 changes the first-namespace name while the class key (and every descriptor) keeps the old "
-                       "name: the result is a mis-keyed mapping set; extend refuses namespace 0, contract must too")
-                if "refuse_first" in form:
-                    guard = U.parse(form["refuse_first"], env)
-                    R.inst(rid, "contract:first-namespace-refused", _refused(conds, guard), sp=a["sp"], expect="!if " + U.show(guard),
-                           got=U.show_conds(conds), detail=why)
-                else:
-                    want = [("iflet", U.parse(form["condition"], env), True)]
-                    R.inst(rid, "contract:first-namespace-refused", conds == want, sp=a["sp"], expect=U.show_conds(want),
-                           got=U.show_conds(conds), detail=why + " (here: through get_mut_with_src, whose refusal is checked separately)")
+                # Not required: refusing the first namespace in contract.  The property quantifies over target namespaces at a non-first
+                # index only, so whether contract refuses slot 0 is outside what C11 states (a rule demanding it was withdrawn).
     ib = q.fn("index_mut", impl_ty="quill::tree::names::Names<")
     if R.anchor(rid, "impl IndexMut<Namespace> for Names", ib):
         U.check_fn_result(R, rid, "Names::index_mut", ib, spec["index_mut"]["params"], spec["index_mut"]["result"])
@@ -188,7 +180,7 @@ def r11_2(q, R, spec):
     b = q.fn("get_class_name", impl_ty="quill::tree::mappings::Mappings")
     if R.anchor(rid, "fn Mappings::get_class_name", b):
         U.check_fn_result(R, rid, "get_class_name", b, sg["params"], sg["result"], detail=sg["doc"])
-    R.floor(rid, 5 + 2 + 5 + 2 + 3)
+    R.floor(rid, 5 + 2 + 5 + 2 + 2)
 
 
 def _refused(conds, guard):
